@@ -237,9 +237,44 @@ pub fn mutate(doc: &Value, r: &mut Rng) -> Value {
         // add a member (unknown, or a known one that is absent)
         3 => {
             if let Some(Value::Object(m)) = at_mut(&mut d, &p) {
-                let k = if r.chance(1, 2) { r.pick(&names).to_string() } else { gen_string(r) };
-                let v = odd_value(r);
-                m.entry(k).or_insert(v);
+                if !m.is_empty() && r.chance(1, 3) {
+                    // another spelling of a member that is already there (other letter case, a hyphen before
+                    // the digits, an underscore for a hyphen), with a value of the same shape but other content
+                    let keys: Vec<String> = m.keys().cloned().collect();
+                    let k0 = r.pick(&keys).clone();
+                    let k = match r.below(4) {
+                        0 => k0.to_uppercase(),
+                        1 => match k0.find(|c: char| c.is_ascii_digit()) {
+                            Some(i) => format!("{}-{}", &k0[..i], &k0[i..]),
+                            None => format!("{}_", k0),
+                        },
+                        2 => k0.replace('-', "_").replace("return_value", "return-value "),
+                        _ => {
+                            let mut cs: Vec<char> = k0.chars().collect();
+                            if let Some(c) = cs.first_mut() {
+                                *c = c.to_ascii_uppercase();
+                            }
+                            cs.into_iter().collect()
+                        }
+                    };
+                    let v = match m.get(&k0) {
+                        Some(Value::String(s)) if !s.is_empty() => {
+                            let mut b: Vec<char> = s.chars().collect();
+                            let i = r.below(b.len());
+                            b[i] = if b[i] == '1' { '2' } else { '1' };
+                            Value::String(b.into_iter().collect())
+                        }
+                        Some(x) => x.clone(),
+                        None => odd_value(r),
+                    };
+                    if k != k0 {
+                        m.entry(k).or_insert(v);
+                    }
+                } else {
+                    let k = if r.chance(1, 2) { r.pick(&names).to_string() } else { gen_string(r) };
+                    let v = odd_value(r);
+                    m.entry(k).or_insert(v);
+                }
             }
         }
         // replace a value by one of another shape
